@@ -4,7 +4,12 @@
 //! exactly like the normal one. The harness in /verif installs a handler to
 //! observe or schedule the instrumented points.
 
+use std::future::Future;
+use std::pin::Pin;
 use std::sync::{Arc, RwLock};
+
+/// A task the code under test is about to hand to its runtime.
+pub type SpawnedFuture = Pin<Box<dyn Future<Output = ()> + Send + 'static>>;
 
 pub trait Hooks: Send + Sync {
     /// A file-system effect / publish / hand-over happens next.
@@ -27,6 +32,11 @@ pub trait Hooks: Send + Sync {
     /// Returns true when the handler consumed the wait (skip the real sleep).
     fn retry_sleep(&self, _name: &'static str) -> bool {
         false
+    }
+    /// Spawn seam: a handler that wants to run the task itself (as an actor of its own) keeps
+    /// the future and returns `None`; otherwise it is handed back and spawned as usual.
+    fn spawn(&self, _name: &'static str, fut: SpawnedFuture) -> Option<SpawnedFuture> {
+        Some(fut)
     }
     /// Fault injection: true makes the operation behind this point fail with an I/O error
     /// instead of being performed.
@@ -85,4 +95,11 @@ pub fn retry_sleep(name: &'static str) -> bool {
 
 pub fn fail(name: &'static str) -> bool {
     current().map(|h| h.fail(name)).unwrap_or(false)
+}
+
+pub fn spawn(name: &'static str, fut: SpawnedFuture) -> Option<SpawnedFuture> {
+    match current() {
+        Some(h) => h.spawn(name, fut),
+        None => Some(fut),
+    }
 }
